@@ -16,6 +16,7 @@ pub mod syscalls {
 //@include prelude/syserr_opaque.rs
 //@use syscalls.unlinkat
 //@use syscalls.openat
+//@use-missing syscalls.openat syscalls.openat_follow syscalls.readlinkat syscalls.mkdirat syscalls.mknodat syscalls.unlinkat syscalls.linkat syscalls.symlinkat syscalls.renameat syscalls.renameat2 syscalls.openat2
 }
 use syscalls::Error as SyscallError;
 
